@@ -852,6 +852,45 @@ func init() {
 			}
 			return mkStr(out)
 		},
+		// verifCrash(): the process stops here. Control continues after the
+		// enclosing verifCatchCrash; no deferred call of the interpreted program runs.
+		"verifCrash": func(th *Thread, fr *frame, fn *ssa.Function, args []Value) Value {
+			if th.p.crashCatch == 0 {
+				panic(unsupported{"verifCrash outside verifCatchCrash"})
+			}
+			if th.id != 0 {
+				panic(unsupported{"verifCrash in a thread other than the harness thread"})
+			}
+			panic(crashUnwind{})
+		},
+		// verifCatchCrash(f) bool: runs f; returns true if it crashed. All other
+		// threads are discarded on a crash (they belonged to the dead process).
+		"verifCatchCrash": func(th *Thread, fr *frame, fn *ssa.Function, args []Value) (res Value) {
+			p := th.p
+			p.crashCatch++
+			depth, top := th.depth, th.top
+			defer func() {
+				p.crashCatch--
+				if r := recover(); r != nil {
+					if _, ok := r.(crashUnwind); !ok {
+						panic(r)
+					}
+					th.depth, th.top = depth, top
+					for _, t := range p.threads {
+						if t != th {
+							t.done = true
+							t.pending = nil
+						}
+					}
+					p.cur = th
+					p.syncSt = map[*Value]*syncState{}
+					p.timers = nil
+					res = TrueT
+				}
+			}()
+			th.call(fr, args[0], nil)
+			return FalseT
+		},
 		"verifSymbolic": func(th *Thread, fr *frame, fn *ssa.Function, args []Value) Value { return TrueT },
 		"verifParam": func(th *Thread, fr *frame, fn *ssa.Function, args []Value) Value {
 			if v, ok := th.p.eng.Cfg.Params[args[0].(Str).String()]; ok {
